@@ -23,7 +23,7 @@ def _alarm(signum, frame):
     raise Timeout()
 
 
-def build(grammar_text: str):
+def build(grammar_text: str, regenerate: bool = False):
     from pegen.grammar_parser import GeneratedParser as GrammarParser
     from pegen.python_generator import PythonParserGenerator
     from pegen.tokenizer import Tokenizer
@@ -33,6 +33,10 @@ def build(grammar_text: str):
         raise SyntaxError("grammar text unreadable")
     out = io.StringIO()
     PythonParserGenerator(g, out).generate("<runner>")
+    if regenerate:
+        # a second parser generated from the SAME grammar object (nothing may be left over from the first run)
+        out = io.StringIO()
+        PythonParserGenerator(g, out).generate("<runner>")
     ns = {}
     exec(compile(out.getvalue(), "<generated>", "exec"), ns)
     return g, ns["GeneratedParser"]
@@ -88,7 +92,7 @@ def main():
     for job in jobs:
         try:
             signal.setitimer(signal.ITIMER_REAL, 5.0)
-            g, P = build(job["grammar"])
+            g, P = build(job["grammar"], bool(job.get("regenerate")))
             signal.setitimer(signal.ITIMER_REAL, 0)
         except BaseException as e:   # noqa
             signal.setitimer(signal.ITIMER_REAL, 0)
